@@ -21,7 +21,12 @@ type c06Case struct {
 	GroupBy int      `json:"group_by"`   // index into c06GroupBys
 	K       int      `json:"k"`          // period multiple (1 = no period clause)
 	Fields  string   `json:"fields"`
+	// AsOf: explicit lower bound in half seconds after the epoch (0 = none): data before it exists, and the window is
+	// then usually not a multiple of the period
+	AsOf int `json:"asof_half_s,omitempty"`
 }
+
+var c06AsOfs = []int{0, 3, 4}
 
 var c06GroupBys = [][]string{nil, {"x", "y"}, {"x"}, {"y"}, {"_"}}
 var c06Ks = []int{1, 2, 3, 5, 8, 16}
@@ -30,6 +35,9 @@ var c06Nows = []int{10, 11, 12, 16} // half seconds: last period end, +1/2, +1, 
 
 func c06SQL(cs c06Case) string {
 	sql := fmt.Sprintf("SELECT %s FROM t6", cs.Fields)
+	if cs.AsOf > 0 {
+		sql += fmt.Sprintf(" ASOF '%s'", dbdrv.Epoch.Add(time.Duration(cs.AsOf)*time.Second/2).Format(time.RFC3339Nano))
+	}
 	var gb []string
 	if g := c06GroupBys[cs.GroupBy]; g != nil {
 		gb = append(gb, g...)
@@ -51,6 +59,10 @@ func c06Check(c *fw.Ctx, env *t6Env, cs c06Case) {
 		// a refusal must not depend on the data: count it, never a pass of the row oracle
 		c.Count("queries_refused", 1)
 		c.Outcome("refused:" + err.Error())
+		if cs.AsOf > 0 {
+			// explicit ranges and their refusals are C07's subject
+			return
+		}
 		if !strings.Contains(err.Error(), "multiple of table resolution") && !strings.Contains(err.Error(), "higher than table resolution") {
 			c.Violate("C06", "query-error", fmt.Sprintf("%s: %v", sql, err), cs)
 		}
@@ -65,6 +77,15 @@ func c06Check(c *fw.Ctx, env *t6Env, cs c06Case) {
 	}
 	if !native {
 		q.OldestT = now - int64(env.t.Retention) - int64(env.t.Resolution)
+	}
+	if cs.AsOf > 0 {
+		q.ReqA = int64(cs.AsOf) * sec / 2
+		if q.ReqA > q.Lo {
+			q.Lo = q.ReqA
+		}
+		if q.Lo >= q.Hi {
+			return
+		}
 	}
 	if class, msg := checkSemantics(res, env.pts, q); class != "" {
 		c.Violate("C06", class, fmt.Sprintf("%s (dataset %v split %d now=%v; plan window (%v, %v] resolution %v):\n%s\nrows: %v", sql, cs.Dataset, cs.Split, time.Duration(now), res.AsOf.Sub(dbdrv.Epoch), res.Until.Sub(dbdrv.Epoch), res.Resolution, msg, res.Canon()), cs)
@@ -113,11 +134,16 @@ func c06RunDataset(c *fw.Ctx, set []t6Cell, split int, only *c06Case) {
 		for gi := range c06GroupBys {
 			for _, k := range c06Ks {
 				for _, f := range c06Fields {
-					cs := c06Case{Dataset: set, Split: split, NowHalf: nh, GroupBy: gi, K: k, Fields: f}
-					if gi == 2 && k == 3 && f == "av, ca" {
-						c.Sample("query", map[string]interface{}{"dataset": set, "split": split, "now_s": float64(nh) / 2, "sql": c06SQL(cs)})
+					for _, ao := range c06AsOfs {
+						if ao > 0 && (f == "*" || f == "ratio") {
+							continue // two field lists are enough under an explicit range
+						}
+						cs := c06Case{Dataset: set, Split: split, NowHalf: nh, GroupBy: gi, K: k, Fields: f, AsOf: ao}
+						if gi == 2 && k == 3 && f == "av, ca" && ao == 0 {
+							c.Sample("query", map[string]interface{}{"dataset": set, "split": split, "now_s": float64(nh) / 2, "sql": c06SQL(cs)})
+						}
+						c06Check(c, env, cs)
 					}
-					c06Check(c, env, cs)
 				}
 			}
 		}
@@ -128,7 +154,7 @@ func init() {
 	fw.Register(&fw.Prop{
 		ID:          "C06",
 		Level:       "exploration",
-		Rule:        "datasets: all sets of up to 2 (quick) / 3 (thorough) cells over 6 keys (x in {1,2} × y in {true,false,absent}) × 5 periods, canonical under renaming x, plus 4 richer sets; each × storage {memory, disk, split} × clock {last period end, +½, +1, +3 periods} × GROUP BY {none, x y, x, y, _} × period(k·res) for k in {1,2,3,5,8,16} (non-divisors of and larger than the window included) × fields {*, a, av, ratio, 'av, ca'}; oracle (anchoring-agnostic): per key the intervals (T-P, T] are disjoint, every point whose native period lies wholly in the window is covered by exactly one row, every row wholly inside the window equals the aggregate recomputed from the raw points of its interval (AVG/ratio recomputed), edge-straddling rows hold only points of their interval, no row without points, nothing older than one resolution before the window; P is read from the plan; non-trivial = coarser grouping with rows",
+		Rule:        "datasets: all sets of up to 2 (quick) / 3 (thorough) cells over 6 keys (x in {1,2} × y in {true,false,absent}) × 5 periods, canonical under renaming x, plus 4 richer sets; each × storage {memory, disk, split} × clock {last period end, +½, +1, +3 periods} × GROUP BY {none, x y, x, y, _} × period(k·res) for k in {1,2,3,5,8,16} (non-divisors of and larger than the window included) × fields {*, a, av, ratio, 'av, ca'}, and for three of the field lists also under an explicit ASOF at 1.5 s and 2 s after the first period (data before the bound, window not a multiple of the period); oracle (anchoring-agnostic): per key the intervals (T-P, T] are disjoint, every point whose native period lies wholly in the window is covered by exactly one row, every row wholly inside the window equals the aggregate recomputed from the raw points of its interval (AVG/ratio recomputed), edge-straddling rows hold only points of their interval, no row without points, nothing older than one resolution before the window; P is read from the plan; non-trivial = coarser grouping with rows",
 		Assumptions: []string{"values are distinct powers of two so that a sum identifies the contributing points", "a query the planner refuses (period not a multiple of the resolution) is counted separately"},
 		Shards:      func(tier string) int { return 16 },
 		Budget: func(tier string) time.Duration {
